@@ -1,11 +1,21 @@
 ---------------------------- MODULE Wire ----------------------------
+(* The postcard wire format (spec/src/wire-format.md) as recursive operators over shape/value trees.
+   Shapes: [k |-> kind, ...]; values mirror them (see DESIGN.md 2.2). Wide integers are LE byte limbs,
+   floats their IEEE bit patterns as LE bytes, chars/strings UTF-8 byte sequences.
+   Enc  : the one encoding the serializer must emit (canonical varints).
+   Dec  : left-to-right decoder returning the value, the bytes consumed and the list of block reads,
+          or the error kind of the FIRST violated rule. *)
 EXTENDS Varint, TLC
 IntW(k) == CASE k \in {"u16", "i16"} -> 16 [] k \in {"u32", "i32"} -> 32
              [] k \in {"u64", "i64", "usize", "isize"} -> 64 [] k \in {"u128", "i128"} -> 128 [] OTHER -> 0
 Signed(k) == k \in {"i16", "i32", "i64", "i128", "isize"}
+IsFix(k) == k \in {"fixle", "fixbe"}
 Err(e) == [ok |-> FALSE, err |-> e]
-Ok(v, p) == [ok |-> TRUE, v |-> v, pos |-> p]
+\* tk: the block reads (try_take_n) performed, in order: [at |-> input offset, n |-> size, k |-> "f"|"c"|"s"|"b"]
+Ok(v, p) == [ok |-> TRUE, v |-> v, pos |-> p, tk |-> <<>>]
+OkT(v, p, tk) == [ok |-> TRUE, v |-> v, pos |-> p, tk |-> tk]
 Rest(bs, p) == SubSeq(bs, p + 1, Len(bs))      \* p = number of bytes already consumed
+Reverse(s) == [i \in 1..Len(s) |-> s[Len(s) + 1 - i]]
 
 \* ------------------------------------------------------------------ encoding
 RECURSIVE Enc(_, _), EncAll(_, _), EncEach(_, _), EncPairs(_, _, _)
@@ -14,23 +24,26 @@ SmallVar(n) == LET RECURSIVE F(_)
                IN F(n)
 EncInt(k, v) == LET W == IntW(k)  b == BitsOfBytes(v, W)
                 IN Canon(IF Signed(k) THEN ZigZag(b, W) ELSE b, W)
+FieldTs(fs) == [i \in 1..Len(fs) |-> fs[i].t]
+EncData(d, v) == CASE d.k = "unit" -> <<>>
+                   [] d.k = "newtype" -> Enc(d.t, v)
+                   [] d.k = "tuple" -> EncAll(d.ts, v)
+                   [] d.k = "struct" -> EncAll(FieldTs(d.fs), v)
 Enc(s, v) ==
   CASE s.k \in {"bool", "u8", "i8"} -> <<v>>
     [] IntW(s.k) # 0 -> EncInt(s.k, v)
     [] s.k \in {"f32", "f64"} -> v
+    [] s.k = "fixle" -> v
+    [] s.k = "fixbe" -> Reverse(v)
     [] s.k \in {"str", "bytes", "char"} -> SmallVar(Len(v)) \o v
     [] s.k = "opt" -> IF v.some = 0 THEN <<0>> ELSE <<1>> \o Enc(s.t, v.v)
     [] s.k \in {"unit", "unit_struct"} -> <<>>
     [] s.k = "newtype_struct" -> Enc(s.t, v)
     [] s.k = "seq" -> SmallVar(Len(v)) \o EncEach(s.t, v)
     [] s.k \in {"tuple", "tuple_struct"} -> EncAll(s.ts, v)
-    [] s.k = "struct" -> EncAll([i \in 1..Len(s.fs) |-> s.fs[i].t], v)
+    [] s.k = "struct" -> EncAll(FieldTs(s.fs), v)
     [] s.k = "map" -> SmallVar(Len(v)) \o EncPairs(s.kt, s.vt, v)
-    [] s.k = "enum" -> SmallVar(v.i) \o (LET d == s.vs[v.i + 1].d IN
-                         CASE d.k = "unit" -> <<>>
-                           [] d.k = "newtype" -> Enc(d.t, v.v)
-                           [] d.k = "tuple" -> EncAll(d.ts, v.v)
-                           [] d.k = "struct" -> EncAll([i \in 1..Len(d.fs) |-> d.fs[i].t], v.v))
+    [] s.k = "enum" -> SmallVar(v.i) \o EncData(s.vs[v.i + 1].d, v.v)
 EncEach(t, vs) == IF vs = <<>> THEN <<>> ELSE Enc(t, Head(vs)) \o EncEach(t, Tail(vs))
 EncAll(ts, vs) == IF ts = <<>> THEN <<>> ELSE Enc(Head(ts), Head(vs)) \o EncAll(Tail(ts), Tail(vs))
 EncPairs(kt, vt, ps) == IF ps = <<>> THEN <<>> ELSE Enc(kt, Head(ps)[1]) \o Enc(vt, Head(ps)[2]) \o EncPairs(kt, vt, Tail(ps))
@@ -41,9 +54,10 @@ ReadLen(bs, p) == LET r == ReadVarint(Rest(bs, p), 64) IN
    IF ~r.ok THEN r
    ELSE LET lb == BytesOfBits(r.bits, 64) IN
         [ok |-> TRUE, big |-> ~IsSmall(lb), n |-> IF IsSmall(lb) THEN ToInt(lb) ELSE 0, pos |-> p + r.used]
-\* take a block of n bytes
-TakeBlock(bs, p, len) == IF len.big \/ len.n > Len(bs) - len.pos THEN Err("End")
-                         ELSE Ok(SubSeq(bs, len.pos + 1, len.pos + len.n), len.pos + len.n)
+\* take a block of n bytes (kind k)
+TakeBlock(bs, len, k) == IF len.big \/ len.n > Len(bs) - len.pos THEN Err("End")
+                         ELSE OkT(SubSeq(bs, len.pos + 1, len.pos + len.n), len.pos + len.n,
+                                  <<[at |-> len.pos, n |-> len.n, k |-> k]>>)
 \* can a value of this shape occupy zero bytes?  (only used to bound iteration)
 RECURSIVE MinW(_)
 MinW(s) == CASE s.k \in {"unit", "unit_struct"} -> 0
@@ -51,51 +65,71 @@ MinW(s) == CASE s.k \in {"unit", "unit_struct"} -> 0
              [] s.k \in {"tuple", "tuple_struct"} -> IF \E i \in 1..Len(s.ts) : MinW(s.ts[i]) > 0 THEN 1 ELSE 0
              [] s.k = "struct" -> IF \E i \in 1..Len(s.fs) : MinW(s.fs[i].t) > 0 THEN 1 ELSE 0
              [] OTHER -> 1
-RECURSIVE Dec(_, _, _), DecAll(_, _, _, _), DecEach(_, _, _, _, _), DecPairs(_, _, _, _, _, _)
+RECURSIVE Dec(_, _, _), DecAll(_, _, _, _, _), DecEach(_, _, _, _, _, _), DecPairs(_, _, _, _, _, _, _)
+DecData(d, bs, q) == CASE d.k = "unit" -> Ok(0, q)
+                       [] d.k = "newtype" -> Dec(d.t, bs, q)
+                       [] d.k = "tuple" -> DecAll(d.ts, bs, q, <<>>, <<>>)
+                       [] d.k = "struct" -> DecAll(FieldTs(d.fs), bs, q, <<>>, <<>>)
 Dec(s, bs, p) ==
   LET n == Len(bs) IN
   CASE s.k \in {"u8", "i8"} -> IF p >= n THEN Err("End") ELSE Ok(bs[p+1], p+1)
     [] s.k = "bool" -> IF p >= n THEN Err("End") ELSE IF bs[p+1] > 1 THEN Err("BadBool") ELSE Ok(bs[p+1], p+1)
     [] IntW(s.k) # 0 -> LET W == IntW(s.k)  r == ReadVarint(Rest(bs, p), W) IN
           IF ~r.ok THEN r ELSE Ok(BytesOfBits(IF Signed(s.k) THEN UnZigZag(r.bits, W) ELSE r.bits, W), p + r.used)
-    [] s.k = "f32" -> IF n - p < 4 THEN Err("End") ELSE Ok(SubSeq(bs, p+1, p+4), p+4)
-    [] s.k = "f64" -> IF n - p < 8 THEN Err("End") ELSE Ok(SubSeq(bs, p+1, p+8), p+8)
-    [] s.k = "bytes" -> LET l == ReadLen(bs, p) IN IF ~l.ok THEN l ELSE TakeBlock(bs, p, l)
+    [] s.k = "f32" -> IF n - p < 4 THEN Err("End") ELSE OkT(SubSeq(bs, p+1, p+4), p+4, <<[at |-> p, n |-> 4, k |-> "f"]>>)
+    [] s.k = "f64" -> IF n - p < 8 THEN Err("End") ELSE OkT(SubSeq(bs, p+1, p+8), p+8, <<[at |-> p, n |-> 8, k |-> "f"]>>)
+    [] s.k = "fixle" -> LET w == s.w \div 8 IN IF n - p < w THEN Err("End") ELSE Ok(SubSeq(bs, p+1, p+w), p+w)
+    [] s.k = "fixbe" -> LET w == s.w \div 8 IN IF n - p < w THEN Err("End") ELSE Ok(Reverse(SubSeq(bs, p+1, p+w)), p+w)
+    [] s.k = "bytes" -> LET l == ReadLen(bs, p) IN IF ~l.ok THEN l ELSE TakeBlock(bs, l, "b")
     [] s.k = "str" -> LET l == ReadLen(bs, p) IN IF ~l.ok THEN l ELSE
-          LET b == TakeBlock(bs, p, l) IN IF ~b.ok THEN b ELSE IF Utf8Valid(b.v) THEN b ELSE Err("BadUtf8")
+          LET b == TakeBlock(bs, l, "s") IN IF ~b.ok THEN b ELSE IF Utf8Valid(b.v) THEN b ELSE Err("BadUtf8")
     [] s.k = "char" -> LET l == ReadLen(bs, p) IN IF ~l.ok THEN l ELSE
           IF l.big \/ l.n > 4 THEN Err("BadChar") ELSE
-          LET b == TakeBlock(bs, p, l) IN IF ~b.ok THEN b ELSE IF OneScalar(b.v) THEN b ELSE Err("BadChar")
+          LET b == TakeBlock(bs, l, "c") IN IF ~b.ok THEN b ELSE IF OneScalar(b.v) THEN b ELSE Err("BadChar")
     [] s.k = "opt" -> IF p >= n THEN Err("End")
           ELSE IF bs[p+1] = 0 THEN Ok([some |-> 0], p+1)
-          ELSE IF bs[p+1] = 1 THEN (LET r == Dec(s.t, bs, p+1) IN IF ~r.ok THEN r ELSE Ok([some |-> 1, v |-> r.v], r.pos))
+          ELSE IF bs[p+1] = 1 THEN (LET r == Dec(s.t, bs, p+1) IN IF ~r.ok THEN r ELSE OkT([some |-> 1, v |-> r.v], r.pos, r.tk))
           ELSE Err("BadOption")
     [] s.k = "unit" \/ s.k = "unit_struct" -> Ok(0, p)
     [] s.k = "newtype_struct" -> Dec(s.t, bs, p)
     [] s.k = "seq" -> LET l == ReadLen(bs, p) IN IF ~l.ok THEN l ELSE
           LET avail == n - l.pos
               cnt == IF (l.big \/ l.n > avail) /\ MinW(s.t) > 0 THEN avail + 1 ELSE l.n   \* must fail within avail+1 elements
-          IN DecEach(s.t, bs, l.pos, cnt, <<>>)
-    [] s.k \in {"tuple", "tuple_struct"} -> DecAll(s.ts, bs, p, <<>>)
-    [] s.k = "struct" -> DecAll([i \in 1..Len(s.fs) |-> s.fs[i].t], bs, p, <<>>)
+          IN DecEach(s.t, bs, l.pos, cnt, <<>>, <<>>)
+    [] s.k \in {"tuple", "tuple_struct"} -> DecAll(s.ts, bs, p, <<>>, <<>>)
+    [] s.k = "struct" -> DecAll(FieldTs(s.fs), bs, p, <<>>, <<>>)
     [] s.k = "map" -> LET l == ReadLen(bs, p) IN IF ~l.ok THEN l ELSE
           LET avail == n - l.pos
               cnt == IF (l.big \/ l.n > avail) /\ (MinW(s.kt) > 0 \/ MinW(s.vt) > 0) THEN avail + 1 ELSE l.n
-          IN DecPairs(s.kt, s.vt, bs, l.pos, cnt, <<>>)
+          IN DecPairs(s.kt, s.vt, bs, l.pos, cnt, <<>>, <<>>)
     [] s.k = "enum" -> LET r == ReadVarint(Rest(bs, p), 32) IN IF ~r.ok THEN r ELSE
           LET ib == BytesOfBits(r.bits, 32) IN
           IF ~IsSmall(ib) \/ ToInt(ib) >= Len(s.vs) THEN Err("Custom") ELSE
-          LET i == ToInt(ib)  d == s.vs[i+1].d  q == p + r.used
-              pay == CASE d.k = "unit" -> Ok(0, q)
-                       [] d.k = "newtype" -> Dec(d.t, bs, q)
-                       [] d.k = "tuple" -> DecAll(d.ts, bs, q, <<>>)
-                       [] d.k = "struct" -> DecAll([j \in 1..Len(d.fs) |-> d.fs[j].t], bs, q, <<>>)
-          IN IF ~pay.ok THEN pay ELSE Ok([i |-> i, v |-> pay.v], pay.pos)
-DecAll(ts, bs, p, acc) == IF ts = <<>> THEN Ok(acc, p)
-   ELSE LET r == Dec(Head(ts), bs, p) IN IF ~r.ok THEN r ELSE DecAll(Tail(ts), bs, r.pos, Append(acc, r.v))
-DecEach(t, bs, p, cnt, acc) == IF cnt = 0 THEN Ok(acc, p)
-   ELSE LET r == Dec(t, bs, p) IN IF ~r.ok THEN r ELSE DecEach(t, bs, r.pos, cnt - 1, Append(acc, r.v))
-DecPairs(kt, vt, bs, p, cnt, acc) == IF cnt = 0 THEN Ok(acc, p)
+          LET i == ToInt(ib)  pay == DecData(s.vs[i+1].d, bs, p + r.used)
+          IN IF ~pay.ok THEN pay ELSE OkT([i |-> i, v |-> pay.v], pay.pos, pay.tk)
+DecAll(ts, bs, p, acc, tk) == IF ts = <<>> THEN OkT(acc, p, tk)
+   ELSE LET r == Dec(Head(ts), bs, p) IN IF ~r.ok THEN r ELSE DecAll(Tail(ts), bs, r.pos, Append(acc, r.v), tk \o r.tk)
+DecEach(t, bs, p, cnt, acc, tk) == IF cnt = 0 THEN OkT(acc, p, tk)
+   ELSE LET r == Dec(t, bs, p) IN IF ~r.ok THEN r ELSE DecEach(t, bs, r.pos, cnt - 1, Append(acc, r.v), tk \o r.tk)
+DecPairs(kt, vt, bs, p, cnt, acc, tk) == IF cnt = 0 THEN OkT(acc, p, tk)
    ELSE LET a == Dec(kt, bs, p) IN IF ~a.ok THEN a ELSE
-        LET b == Dec(vt, bs, a.pos) IN IF ~b.ok THEN b ELSE DecPairs(kt, vt, bs, b.pos, cnt - 1, Append(acc, <<a.v, b.v>>))
+        LET b == Dec(vt, bs, a.pos) IN IF ~b.ok THEN b ELSE
+        DecPairs(kt, vt, bs, b.pos, cnt - 1, Append(acc, <<a.v, b.v>>), tk \o a.tk \o b.tk)
+
+\* ------------------------------------------------------------------ derived notions
+\* borrowed leaves of a slice decode: offsets of the str/bytes blocks in the input
+SliceLeaves(tk) == LET idx == {i \in 1..Len(tk) : tk[i].k \in {"s", "b"}}
+                       F[i \in 0..Len(tk)] == IF i = 0 THEN <<>>
+                                              ELSE IF tk[i].k \in {"s", "b"} THEN Append(F[i-1], <<tk[i].at, tk[i].n, IF tk[i].k = "s" THEN 0 ELSE 1>>)
+                                              ELSE F[i-1]
+                   IN F[Len(tk)]
+\* scratch needed by a reader-based decode: every block read is copied into the scratch buffer
+RECURSIVE SumN(_, _)
+SumN(tk, i) == IF i = 0 THEN 0 ELSE tk[i].n + SumN(tk, i - 1)
+ScratchNeed(tk) == SumN(tk, Len(tk))
+\* leaves of a reader decode: offsets in the scratch buffer (cumulative block sizes)
+ReaderLeaves(tk) == LET F[i \in 0..Len(tk)] == IF i = 0 THEN <<>>
+                                               ELSE IF tk[i].k \in {"s", "b"} THEN Append(F[i-1], <<SumN(tk, i-1), tk[i].n, IF tk[i].k = "s" THEN 0 ELSE 1>>)
+                                               ELSE F[i-1]
+                    IN F[Len(tk)]
 =====================================================================
